@@ -233,6 +233,13 @@ impl CodeAndPowerSquelch {
         let err = self.correlator.search(input[1]);
         let pwr = self.power_track.track(input[1]);
         self.power_history.push_back(pwr >= self.power_close);
+        #[cfg(feature = "verif-hooks")]
+        super::verif::tap_squelch(
+            input[1] >= 0.0f32,
+            err,
+            pwr >= self.power_open,
+            pwr >= self.power_close,
+        );
         self.symbol_counter += 1;
 
         if !self.sample_history.is_full() {
